@@ -1,9 +1,10 @@
 (* C12 -- datum sequences: the ways of iterating agree (proved part).
-   The concatenation / trivia-insensitivity and termination clauses are
-   checked by the correspondence and the implementation-level oracle; their
-   theorems are not proved yet (see theorems.json). *)
+   Concatenation is proved for single-space separation (C12_concat_partial);
+   general trivia insensitivity and termination are checked by the
+   correspondence and the implementation-level oracle (see theorems.json). *)
 From Coq Require Import SpecFloat.
 Require Import Base Value Float PrintOptions ParseOptions Reader Scan Num Parser DatumProofs DepthProofs.
+Require Import ReaderProofs RoundtripProofs.
 
 (* value_iter().next() and Iterator for Parser are next_value().transpose(),
    datum_iter().next() is next_datum().transpose(): in the model these are
@@ -24,6 +25,17 @@ Proof.
   exact (history_no_panic ro alpha fast std_parse fuel cs (init_state k inp) (init_depth_ok k inp)).
 Qed.
 Print Assumptions C12_histories.
+
+(* Several printed values separated by single spaces read back as exactly those
+   values, in order, followed by the end of input (any number of values, any
+   sizes; the C01 class of values). Other trivia between the values -- tabs,
+   line breaks, form feeds, comments -- is decided by the oracle only. *)
+Theorem C12_concat_partial : forall ryu alpha fast std_parse vs fuel n r D,
+  Forall (fun v => rt_ok alpha v /\ N.of_nat (rdepth v) < D) vs -> D <= 128 ->
+  (length (seq_txt ryu vs) + 16 + 1 <= fuel)%nat -> (length vs < n)%nat -> at_bytes r (seq_txt ryu vs) ->
+  iterate_values default_ro alpha fast std_parse fuel n (mkp r D) = map (fun v => POk v) vs.
+Proof. exact iterate_sequence. Qed.
+Print Assumptions C12_concat_partial.
 
 (* An unexpected closer is consumed when it is reported, so iteration moves on. *)
 Example C12_closer_consumed :
